@@ -44,6 +44,9 @@ def gen_case(rng, tier):
     prof["recent_bias"] = rng.choice([0, 0, 0.3, 0.6])
     prof["pure_loop"] = rng.choice([0, 0, 0.3, 0.5])
     prof["relaunch"] = rng.choice([0, 0, 0.15, 0.3])
+    prof["memory"] = rng.choice([0, 0, 0.5])  # some configuration values are kept in memory (stores and loads among the pure ops)
+    if prof["memory"]:
+        prof["w_pure"] = max(prof["w_pure"], 3)
     ast = G.AccfgGen(rng, prof).program()
     envs = gen_envs(rng, K_ENVS[tier])
     for e in envs[1:]:
